@@ -103,6 +103,8 @@ func (e *env) build(tag string, replace map[string]string) (string, error) {
 	for k, v := range replace {
 		ov[k] = v
 	}
+	// the library driver (options the generator binaries have no flag for) is a virtual main package
+	ov[filepath.Join(e.repo, "zzverif", "c25", "libdriver", "main.go")] = filepath.Join(e.verif, "harness", "c25", "libdriver", "main.go")
 	if len(replace) > 0 {
 		seamDir := filepath.Join(e.verif, "harness", "c25", "seam")
 		ents, err := os.ReadDir(seamDir)
@@ -124,7 +126,7 @@ func (e *env) build(tag string, replace map[string]string) (string, error) {
 		}
 		args = append(args, "-overlay", ovf)
 	}
-	args = append(args, "-o", dir+string(os.PathSeparator), "./generator", "./proto_generator")
+	args = append(args, "-o", dir+string(os.PathSeparator), "./generator", "./proto_generator", "./zzverif/c25/libdriver")
 	cmd := exec.Command(e.goBin, args...)
 	cmd.Dir = e.repo
 	// goindex=0: the go command otherwise reads the imports of module-cache packages (goyang) from its module
@@ -134,7 +136,7 @@ func (e *env) build(tag string, replace map[string]string) (string, error) {
 	if err != nil {
 		return "", fmt.Errorf("go build (%s) failed: %v\n%s", tag, err, tail(string(out), 3000))
 	}
-	for _, b := range []string{"generator", "proto_generator"} {
+	for _, b := range []string{"generator", "proto_generator", "libdriver"} {
 		if _, err := os.Stat(filepath.Join(dir, b)); err != nil {
 			return "", fmt.Errorf("go build (%s) did not produce %s", tag, b)
 		}
